@@ -373,5 +373,60 @@ func factsLimits(t *T) (string, error) {
 	sb.WriteString("Definition fact_append_limit_error_skips_recovery : bool := " + coqBool(limitSkipsRecovery) + ".\n")
 	sb.WriteString("(* actionMoveMessagesOutOfRecoveryMailbox erases the recovered-message hashes only after the label step succeeded *)\n")
 	sb.WriteString("Definition fact_recovery_erase_after_add : bool := " + coqBool(erasePos > addRecoveredPos) + ".\n")
+	raw, err := limInsertFallsBack(t)
+	if err != nil {
+		return "", err
+	}
+	sb.WriteString("(* MessageHashesMap.Insert: when rfc822.GetMessageHash fails the hash string is assigned a fallback value (hash of the\n   raw bytes) instead of returning the error, so every literal has a de-duplication key *)\n")
+	sb.WriteString("Definition fact_insert_falls_back_to_raw_hash : bool := " + coqBool(raw) + ".\n")
 	return sb.String(), nil
+}
+
+// limInsertFallsBack inspects internal/utils/message_hashmap.go Insert: `x, err := rfc822.GetMessageHash(literal)` must be
+// followed by `if err != nil { ... }` whose body assigns x and contains no return statement.
+func limInsertFallsBack(t *T) (bool, error) {
+	const rel = "internal/utils/message_hashmap.go"
+	f, err := t.ParseFile(rel)
+	if err != nil {
+		return false, err
+	}
+	fd := FuncDecl(f, "MessageHashesMap", "Insert")
+	if fd == nil || fd.Body == nil {
+		return false, fmt.Errorf("MessageHashesMap.Insert not found")
+	}
+	hashVar := ""
+	for i, st := range fd.Body.List {
+		if as, ok := st.(*ast.AssignStmt); ok && len(as.Lhs) == 2 && len(as.Rhs) == 1 {
+			if call, ok := as.Rhs[0].(*ast.CallExpr); ok {
+				if se, ok := call.Fun.(*ast.SelectorExpr); ok && se.Sel.Name == "GetMessageHash" {
+					if id, ok := as.Lhs[0].(*ast.Ident); ok {
+						hashVar = id.Name
+					}
+					if i+1 >= len(fd.Body.List) {
+						return false, nil
+					}
+					is, ok := fd.Body.List[i+1].(*ast.IfStmt)
+					if !ok || !strings.Contains(t.Src(rel, is.Cond), "err != nil") {
+						return false, fmt.Errorf("Insert: the error of GetMessageHash is not tested right after the call")
+					}
+					assigns, returns := false, false
+					ast.Inspect(is.Body, func(n ast.Node) bool {
+						switch x := n.(type) {
+						case *ast.ReturnStmt:
+							returns = true
+						case *ast.AssignStmt:
+							for _, l := range x.Lhs {
+								if id, ok := l.(*ast.Ident); ok && id.Name == hashVar && x.Tok == token.ASSIGN {
+									assigns = true
+								}
+							}
+						}
+						return true
+					})
+					return assigns && !returns, nil
+				}
+			}
+		}
+	}
+	return false, fmt.Errorf("Insert: call of GetMessageHash not found")
 }
